@@ -181,7 +181,7 @@ def spec_violation(case, impl, replies):
         ce = hs.get("content-encoding")
         if ce is None or p["body"] == b"":
             return p["body"]
-        if handler_ce and not (p["status"] == 500 and want["status"] != 500):
+        if handler_ce and not (p["status"] == 500 and (want["status"] != 500 or want["rejected"])):
             return p["body"]
         if [v.lower() for v in ce] != ["gzip"]:
             return "decode: unknown Content-Encoding %r" % ce
@@ -203,7 +203,8 @@ def spec_violation(case, impl, replies):
         hs.setdefault(n.lower().decode("latin-1"), []).append(v.decode("latin-1"))
     if not varies:
         return "vary: Accept-Encoding missing from Vary %r" % hs.get("vary")
-    error_resp = p["status"] == 500 and want["status"] != 500     # send_error() cleared the handler's headers
+    # send_error() cleared the handler's headers (the handler may itself have chosen status 500 before the rejected op)
+    error_resp = p["status"] == 500 and (want["status"] != 500 or bool(want["rejected"]))
     added_ce = "content-encoding" in hs and (not handler_ce or error_resp)
     if added_ce and not may:
         return "compress: Content-Encoding %r added for Accept-Encoding %r, Content-Type %r" % (
